@@ -658,7 +658,7 @@ impl Prop for C35 {
         "exploration"
     }
     fn n_units(&self, tier: Tier) -> usize {
-        families(tier).len() + 1
+        families(tier).len() + 2
     }
     fn min_classes(&self) -> usize {
         3
@@ -679,12 +679,17 @@ impl Prop for C35 {
                 }
             }
         }
+        n += member_programs().len() as u64;
         Some(n)
     }
     fn run_unit(&self, tier: Tier, unit: usize, out: &mut UnitOut) {
         let fams = families(tier);
         if unit == fams.len() {
             run_hover(out);
+            return;
+        }
+        if unit == fams.len() + 1 {
+            run_members(out);
             return;
         }
         let fam = &fams[unit];
@@ -717,10 +722,13 @@ impl Prop for C35 {
              additionally the binding used by the run must be the innermost one of the model. Uses of the uniquely declared names us / fn1 / lamN must resolve to their only declaration. \
              B: depth <= 1 one-name programs again behind a first-line comment with 1 or 3 non-ASCII characters. \
              C: {} types x {} binding contexts, type_at on the use (and on the first byte of literal/tuple/array expressions) compared with the documented type syntax modulo white space and a leading `fn`. \
+             M: {} programs in which struct fields (patterns in match arms and lets and constructor arguments with the named fields written in every order, reads, writes), enum variants (qualified / unqualified expressions and patterns, named variant fields), \
+             function parameters (named arguments in every order), functions and member functions are used next to locals of the same names; the run must show that the compiler binds by name, and definition_at at every byte of every marked use must return a range that starts at the marked declaration identifier and covers it. \
              Non-trivial: programs of A/B in which an observed use has a name with >= 2 bindings, and every C program.",
             fams.iter().filter(|f| f.names == 2 && f.kinds.len() == 2).map(|f| f.alphabet.len()).max().unwrap_or(0),
             TYPES.len(),
-            CONTEXTS.len()
+            CONTEXTS.len(),
+            member_programs().len()
         )
     }
     fn assumptions(&self) -> Vec<String> {
@@ -896,6 +904,187 @@ fn run_shadow(out: &mut UnitOut, fam: &Family, case_text: &str, g: &Gen, idx: u6
     if !any {
         let maxb = NAMES.iter().map(|n| g.bindings.iter().filter(|b| b.name == *n).count()).max().unwrap_or(0);
         out.class(&format!("agree:max-bindings-per-name={maxb}"));
+    }
+}
+
+// ---------------------------------------------------------------- family M: field / variant / parameter / function names
+
+/// A program written with markers: `«d:KEY»name` marks the declaration identifier of KEY, `«u:KEY»name` a use that must
+/// resolve to it. Returns (text without markers, declarations KEY -> (lo, hi), uses (KEY, lo, hi)).
+fn strip_markers(marked: &str) -> (String, HashMap<String, (usize, usize)>, Vec<(String, usize, usize)>) {
+    let mut text = String::new();
+    let mut decls = HashMap::new();
+    let mut uses = vec![];
+    let mut rest = marked;
+    while let Some(i) = rest.find('«') {
+        text.push_str(&rest[..i]);
+        let j = rest.find('»').expect("marker closed");
+        let tag = &rest[i + '«'.len_utf8()..j];
+        rest = &rest[j + '»'.len_utf8()..];
+        let n = rest.bytes().take_while(|c| c.is_ascii_alphanumeric() || *c == b'_').count();
+        let (kind, key) = tag.split_once(':').expect("marker kind:key");
+        let (lo, hi) = (text.len(), text.len() + n);
+        if kind == "d" {
+            decls.insert(key.to_string(), (lo, hi));
+        } else {
+            uses.push((key.to_string(), lo, hi));
+        }
+    }
+    text.push_str(rest);
+    (text, decls, uses)
+}
+
+/// (case name, marked program, expected emits)
+fn member_programs() -> Vec<(String, String, Vec<i64>)> {
+    let mut v = vec![];
+    let perms: [[usize; 3]; 6] = [[0, 1, 2], [0, 2, 1], [1, 0, 2], [1, 2, 0], [2, 0, 1], [2, 1, 0]];
+    let f = ["px", "py", "pz"];
+    let struct_decl = "type Vec3 = {\n  «d:px»px: int\n  «d:py»py: int\n  «d:pz»pz: int\n}\n";
+    for perm in perms {
+        let order = perm.map(|k| f[k]).join(", ");
+        // named-field struct pattern in a match arm and in a let; the sub-patterns are variables named like OTHER fields' locals
+        let pat: Vec<String> = perm.iter().map(|&k| format!("«u:{}»{} = v{}", f[k], f[k], k)).collect();
+        v.push((
+            format!("struct pattern in a match arm, fields written in order ({order})"),
+            format!("{struct_decl}let p = Vec3(10, 20, 30)\nmatch p {{\n  Vec3({}) -> {{\n    vh_emit_int(v0)\n    vh_emit_int(v1)\n    vh_emit_int(v2)\n  }}\n}}\n", pat.join(", ")),
+            vec![10, 20, 30],
+        ));
+        v.push((
+            format!("struct pattern in a let, fields written in order ({order})"),
+            format!("{struct_decl}let p = Vec3(10, 20, 30)\nlet Vec3({}) = p\nvh_emit_int(v0)\nvh_emit_int(v1)\nvh_emit_int(v2)\n", pat.join(", ")),
+            vec![10, 20, 30],
+        ));
+        let args: Vec<String> = perm.iter().map(|&k| format!("«u:{}»{} = {}", f[k], f[k], (k + 1) * 10)).collect();
+        v.push((
+            format!("constructor with named arguments in order ({order}), then field reads and a field write"),
+            format!(
+                "{struct_decl}let p = Vec3({})\nvh_emit_int(p.«u:px»px)\nvh_emit_int(p.«u:py»py)\nvh_emit_int(p.«u:pz»pz)\np.«u:py»py = 21\nvh_emit_int(p.«u:py»py)\n",
+                args.join(", ")
+            ),
+            vec![10, 20, 30, 21],
+        ));
+        let fargs: Vec<String> = perm.iter().map(|&k| format!("«u:{}»{} = {}", ["qa", "qb", "qc"][k], ["qa", "qb", "qc"][k], (k + 1) * 10)).collect();
+        v.push((
+            format!("function call with named arguments in order ({})", perm.map(|k| ["qa", "qb", "qc"][k]).join(", ")),
+            format!(
+                "fn «d:f3»f3(«d:qa»qa: int, «d:qb»qb: int, «d:qc»qc: int) -> int {{\n  «u:qa»qa * 100 + «u:qb»qb * 10 + «u:qc»qc\n}}\nvh_emit_int(«u:f3»f3({}))\n",
+                fargs.join(", ")
+            ),
+            vec![1230],
+        ));
+    }
+    // locals named like fields next to field uses
+    v.push((
+        "locals named like the fields, next to field names in a pattern and in accesses".into(),
+        format!(
+            "{struct_decl}let «d:lpx»px = 1\nlet «d:lpy»py = 2\nlet p = Vec3(«u:lpx»px, «u:lpy»py, 3)\nmatch p {{\n  Vec3(«u:pz»pz = c, «u:px»px = a, «u:py»py = b) -> {{\n    vh_emit_int(a + «u:lpx»px)\n    vh_emit_int(b + «u:lpy»py)\n    vh_emit_int(c)\n  }}\n}}\nvh_emit_int(p.«u:px»px + «u:lpx»px)\n"
+        ),
+        vec![2, 4, 3, 2],
+    ));
+    // enum variants: qualified / unqualified expressions and patterns, named variant fields
+    v.push((
+        "enum variants in expressions and patterns, qualified and unqualified".into(),
+        "type «d:Co»Co = «d:Red»Red | «d:Green»Green(int) | «d:Blue»Blue(«d:br»r: int, «d:bg»g: int)\n\
+         fn rk(c: «u:Co»Co) -> int {\n  match c {\n    .«u:Red»Red -> 1\n    «u:Co»Co.«u:Green»Green(n) -> 2 + n\n    .«u:Blue»Blue(r, g) -> r * 10 + g\n  }\n}\n\
+         vh_emit_int(rk(«u:Co»Co.«u:Red»Red))\nvh_emit_int(rk(.«u:Green»Green(5)))\nvh_emit_int(rk(«u:Co»Co.«u:Blue»Blue(«u:bg»g = 4, «u:br»r = 3)))\nlet c2: «u:Co»Co = .«u:Blue»Blue(1, 2)\nvh_emit_int(rk(c2))\n"
+            .into(),
+        vec![1, 7, 34, 12],
+    ));
+    // member functions and functions sharing a name with a field
+    v.push((
+        "member functions, type-qualified member call, a function named like a field".into(),
+        format!(
+            "{struct_decl}extend Vec3 {{\n  fn «d:sum»sum(self) -> int = self.«u:px»px + self.«u:py»py + self.«u:pz»pz\n  fn «d:scaled»scaled(self, «d:k»k: int) -> int = self.«u:sum»sum() * «u:k»k\n}}\nfn «d:fpx»pxf(v: Vec3) -> int = v.«u:px»px\nlet p = Vec3(1, 2, 3)\nvh_emit_int(p.«u:sum»sum())\nvh_emit_int(p.«u:scaled»scaled(2))\nvh_emit_int(Vec3.«u:sum»sum(p))\nvh_emit_int(«u:fpx»pxf(p))\nvh_emit_int(p.«u:scaled»scaled(«u:k»k = 3))\n"
+        ),
+        vec![6, 12, 6, 1, 18],
+    ));
+    v
+}
+
+fn run_members(out: &mut UnitOut) {
+    for (idx, (name, marked, want)) in member_programs().into_iter().enumerate() {
+        if !out.begin_case(idx as u64) {
+            continue;
+        }
+        let (text0, decls, uses) = strip_markers(&marked);
+        let text = format!("use vh\n{text0}");
+        let shift = "use vh\n".len();
+        let case_text = format!("C35 members: {name}");
+        out.describe_case(&format!("{case_text}\n{text}"));
+        out.evaluations += 1;
+        out.nontrivial_text(&case_text);
+        let key0 = format!("input:{}", hkey(&case_text));
+        let src = Src::with_vh(&text);
+        // behaviour first: the program must be accepted and bind / dispatch by NAME (the declaration the compiler uses)
+        let r = match drive::compile(&src, COpts::default()) {
+            Compiled::Ok(p) => drive::run(&p, &src.host_table(), StdHost::default(), ROpts::default()),
+            Compiled::Diag(dg) => {
+                out.class("violation:rejected");
+                out.violation(vec![key0], format!("{case_text}: program rejected"), json!({"case": case_text, "program": text, "diagnostics": dg}));
+                continue;
+            }
+            Compiled::Panic(p) => {
+                out.class("violation:compiler-panic");
+                out.violation(vec![key0, p.site_key()], format!("{case_text}: compiler panic at {}: {}", p.site, p.msg), json!({"case": case_text, "program": text}));
+                continue;
+            }
+        };
+        let got: Vec<i64> = r.host.emits.iter().filter_map(|e| if let Emit::Int(v) = e { Some(*v) } else { None }).collect();
+        if r.end != End::Done || got != want {
+            out.class("violation:behaviour");
+            out.violation(
+                vec![key0],
+                format!("{case_text}: the compiled program does not use the named declarations: expected emits {want:?}, observed end={} emits={got:?}", crate::batch::short_end(&r.end)),
+                json!({"case": case_text, "program": text, "expected": format!("{want:?}"), "observed": format!("{got:?}")}),
+            );
+            continue;
+        }
+        let a = match lsp(&src) {
+            Ok(a) => a,
+            Err(p) => {
+                out.class("violation:check_lsp-panic");
+                out.violation(vec![key0, p.site_key()], format!("{case_text}: check_lsp panicked at {}: {}", p.site, p.msg), json!({"case": case_text, "program": text}));
+                continue;
+            }
+        };
+        let fid = main_file_id(&a);
+        let mut problems = vec![];
+        let mut unanswered = 0;
+        for (key, lo, hi) in &uses {
+            let (dlo, dhi) = decls[key];
+            let (lo, hi, dlo, dhi) = (lo + shift, hi + shift, dlo + shift, dhi + shift);
+            let uname = &text[lo..hi];
+            for off in lo..hi {
+                out.count("lsp_queries", 1);
+                match drive::catch(|| a.definition_at(fid, off)) {
+                    Err(p) => problems.push(format!("definition_at({off}) on `{uname}` panicked at {}: {}", p.site, p.msg)),
+                    Ok(None) => unanswered += 1,
+                    Ok(Some(d)) => {
+                        let got_text = if d.file_id == fid && d.range.end <= text.len() && text.is_char_boundary(d.range.start) && text.is_char_boundary(d.range.end) { &text[d.range.start..d.range.end] } else { "<other file or malformed range>" };
+                        // the returned range is the declaration: it starts at the declared identifier (it may extend over
+                        // the rest of the declaration, e.g. a variant's payload `Green(int)`)
+                        if d.file_id != fid || d.range.start != dlo || d.range.end < dhi {
+                            problems.push(format!(
+                                "definition_at({off}) on the use `{uname}` (declaration `{}` at bytes {dlo}..{dhi}) returned bytes {}..{} = `{got_text}`",
+                                &text[dlo..dhi], d.range.start, d.range.end
+                            ));
+                        }
+                    }
+                }
+            }
+        }
+        out.count("member_queries_without_answer", unanswered);
+        if problems.is_empty() {
+            out.class(if unanswered == 0 { "members-agree" } else { "members-agree (some queries unanswered)" });
+            out.sample(json!({"case": case_text, "program": text, "uses": uses.len(), "unanswered_queries": unanswered}));
+        } else {
+            out.class("violation:definition-disagrees");
+            out.violation(
+                vec![key0],
+                format!("{case_text}: {} go-to-definition answers name another declaration; first: {}", problems.len(), problems[0]),
+                json!({"case": case_text, "program": text, "problems": problems}),
+            );
+        }
     }
 }
 
